@@ -206,10 +206,10 @@ where
         let dfdx = f1(x);
         let dx = -f0(x) / dfdx;
 
-        if (dx < T::epsilon())
-            || (T::abs(dx / x) < T::sqrt(T::epsilon()))
-            || (T::abs(dfdx) < T::epsilon())
-        {
+        // all tests are relative to the scale of x: the unknown has the
+        // dimension of 1/|s|, so absolute thresholds would stop the
+        // iteration early (or never) for very small or very large s
+        if (dx <= T::zero()) || !dx.is_finite() || (T::abs(dx / x) < T::sqrt(T::epsilon())) {
             break;
         }
         x += dx;
